@@ -8,6 +8,10 @@ pub struct GC {
 
     /// All marked objects during a run.
     mark_bitmap: bv::BitVec,
+
+    /// Arrays that were reached during a run but are not managed by this garbage collector
+    /// (e.g. a result that was handed over to the caller while a global variable still refers to it)
+    unmanaged_arrays: Vec<Object>,
 }
 
 impl GC {
@@ -16,6 +20,7 @@ impl GC {
         Self {
             objects: Vec::new(),
             mark_bitmap: bv::BitVec::new(),
+            unmanaged_arrays: Vec::new(),
         }
     }
 
@@ -74,6 +79,7 @@ impl GC {
         }
 
         // Start with one (unset) mark bit for every managed object
+        self.unmanaged_arrays.clear();
         self.mark_bitmap.clear();
         self.mark_bitmap.resize(self.objects.len(), false);
 
@@ -116,7 +122,23 @@ impl GC {
             .position(|a| std::ptr::eq(a.as_ptr(), o.as_ptr()))
         {
             Some(index) => index,
-            None => return,
+            None => {
+                // We never free this object, but if it is an array it can refer to objects that we do manage.
+                // Visit every such array only once (it has no mark bit, and arrays can contain themselves).
+                if o.tag() == Type::Array
+                    && !self
+                        .unmanaged_arrays
+                        .iter()
+                        .any(|a| std::ptr::eq(a.as_ptr(), o.as_ptr()))
+                {
+                    self.unmanaged_arrays.push(*o);
+                    // Safety: we already checked the type.
+                    for v in unsafe { o.as_vec_unchecked() } {
+                        self.mark(v);
+                    }
+                }
+                return;
+            }
         };
         debug_assert!(index < self.mark_bitmap.len());
 
